@@ -120,6 +120,9 @@ MUTANTS = [
     ('c02-finish-waits-for-the-notification-only-unfixed', 'C02', 'c02', 700, 'python/experiment/runtime/workflow.py',
      "                reactivex.interval(5.0).pipe(\n                    op.take_while(lambda _: self.controllerState not in final_states)",
      "                reactivex.empty().pipe(\n                    op.take_while(lambda _: self.controllerState not in final_states)"),
+    ('c07-replicated-component-named-like-a-runtime-folder-unfixed', 'C07', 'c07', 400, 'python/experiment/model/frontends/flowir.py',
+     "                if stage_idx is None and os.path.sep not in producer and (c_id[0], producer) in replicate_instructions:\n",
+     "                if False:\n"),
     ('c14-instance-description-written-in-place', 'C14', 'c14rt', 192, 'python/experiment/model/conf.py',
      "        temp_file = '%s.%s.tmp' % (instance_file, uuid.uuid4())\n", "        temp_file = instance_file\n"),
     ('c14-status-written-in-place', 'C14', 'c14rt', 192, 'python/experiment/model/data.py',
